@@ -12,11 +12,29 @@ macro_rules! unsafe_linear_float_to_encoded_uint {
         {
             debug_assert!(($min_float_bits..=MAX_FLOAT_BITS).contains(&$input.to_bits()));
         }
+        #[cfg(palette_verif)]
+        {
+            assert!(
+                ($min_float_bits..=MAX_FLOAT_BITS).contains(&input_bits),
+                "palette_verif: lut input bits {:#x} outside table range",
+                input_bits
+            );
+        }
         let entry = {
             let i = ((input_bits - $min_float_bits) >> (23 - $man_index_width)) as usize;
             #[cfg(test)]
             {
                 debug_assert!($table.get(i).is_some());
+            }
+            #[cfg(palette_verif)]
+            {
+                assert!(
+                    i < $table.len(),
+                    "palette_verif: lut index {} out of bounds (len {}) for input bits {:#x}",
+                    i,
+                    $table.len(),
+                    input_bits
+                );
             }
             *$table.get_unchecked(i)
         };
